@@ -333,9 +333,10 @@ func runReuse(idx int, p reusePlan, root string) {
 				rec.Violation(idx, fmt.Sprintf("nocrash/write[%s]/version-dirs=%d", rel, len(vd)),
 					fmt.Sprintf("after Write #%d (%s) the base directory holds %d version directories %v (target -> %s); exactly the current one should remain", writes-1, rel, len(vd), o.Base, o.Link),
 					replay(ex))
-			} else {
-				rec.Count("reuse.exactly-one-version-dir", 1)
+				rec.Case(idx, key, rel != "first")
+				return // later Writes of this history would only repeat it with a larger count
 			}
+			rec.Count("reuse.exactly-one-version-dir", 1)
 			if len(history) > 0 && equalSet(want, history[len(history)-1]) {
 				if o.Link == lastLink {
 					rec.Count("reuse.identical-set.kept-version-dir", 1)
